@@ -1,6 +1,7 @@
 package sym
 
 import (
+	"os"
 	"fmt"
 	"go/types"
 	"math/big"
@@ -500,6 +501,8 @@ func (p *Path) reportViolation(kind, msg, pos string, bad *smt.Term) (found bool
 	return found
 }
 
+var debugPaths = os.Getenv("GOSYM_DEBUG_PATHS") != ""
+
 // checkAssert handles vrt.Assert(c,msg).
 func (p *Path) checkAssert(c *smt.Term, msg string, site ssa.Instruction) {
 	p.res.Asserts++
@@ -575,7 +578,15 @@ func (e *Engine) RunPath(s *smt.Solver, st *Stats, t Task) (res PathResult, work
 			p.reportViolation("panic", x.msg, x.pos, smt.True)
 			res.Findings = p.res.Findings
 		default:
-			panic(r)
+			// a defect of the engine itself: the path is inconclusive, never a pass
+			res.Outcome = "unsupported"
+			res.Msg = fmt.Sprintf("engine error: %v", r)
+			if p.curIns != nil {
+				res.Msg += " at " + p.posOf(p.curIns)
+			}
+			st.mu.Lock()
+			st.Unsupp[res.Msg]++
+			st.mu.Unlock()
 		}
 		if p.E.Cfg.WriteMonitor && len(p.writes) > 0 && (res.Outcome == "done" || res.Outcome == "panic" || res.Outcome == "violation") {
 			for _, w := range p.writes {
@@ -718,6 +729,9 @@ func (e *Engine) Explore(harnesses []Task, st *Stats) (map[string]*HarnessResult
 				hr := results[t.Harness]
 				hr.Paths++
 				hr.Outcomes[res.Outcome]++
+				if debugPaths {
+					fmt.Fprintf(os.Stderr, "path %s %v: %s %s (unknown %d)\n", t.Harness, res.Decisions, res.Outcome, res.Msg, res.Unknown)
+				}
 				hr.Asserts += res.Asserts
 				hr.Proved += res.Proved
 				hr.Unknown += res.Unknown
